@@ -5,6 +5,8 @@ exact integer arithmetic; half-open rule; invariances), PolyFileSpec.
 """
 import shutil
 
+import warnings
+
 import numpy as np
 
 from .. import evidence, findings, par, tlc
@@ -148,6 +150,27 @@ def _roundtrip(job):
                             "%s vs %s" % (o.unique_id, b[3])))
             if not np.array_equal(o.filter(qx, qy), cb):
                 out.append((".poly round trip alters a classification", ""))
+        # the identifiers keep identifying the loaded filters: filters
+        # registered afterwards (without requested identifier, and by
+        # loading the file once more) take other identifiers
+        want_ids = [b[3] for b in before]
+        for k in range(2):
+            PolygonFilter(axes=("area_um", "deform"),
+                          points=np.array(SHAPES[case["saved"][0]["shape"]],
+                                          dtype=float), name="later %d" % k)
+        with warnings.catch_warnings():
+            warnings.simplefilter("ignore")
+            PolygonFilter.import_all(path)
+        if [o.unique_id for o in loaded] != want_ids:
+            out.append(("identifier of a loaded filter changes when further "
+                        "filters are registered", ""))
+        for p_ in PolygonFilter.instances:
+            if PolygonFilter.get_instance_from_id(p_.unique_id) is not p_:
+                out.append(("identifier of a loaded filter is given to a "
+                            "filter registered later", "ids %s" % [
+                                q_.unique_id
+                                for q_ in PolygonFilter.instances]))
+                break
     except Exception as exc:
         names = sorted({d["name"] for d in case["saved"]})
         out.append((".poly round trip raises %s (%s)" % (
